@@ -32,6 +32,8 @@ import (
 	"errors"
 	"fmt"
 	"math/rand"
+	"os"
+	"path/filepath"
 	"runtime"
 	"strconv"
 	"strings"
@@ -40,6 +42,9 @@ import (
 	"time"
 
 	"github.com/cloudwego/thriftgo/generator"
+	"github.com/cloudwego/thriftgo/generator/backend"
+	"github.com/cloudwego/thriftgo/plugin"
+	"github.com/cloudwego/thriftgo/utils/dir_utils"
 
 	"verifharness/pkg/nd"
 )
@@ -62,6 +67,15 @@ type pcase struct {
 	Tail   string   `json:"tail,omitempty"`
 	HangMs int      `json:"hang_ms,omitempty"`
 	Full   bool     `json:"full,omitempty"`
+	NoPP   bool     `json:"nopp,omitempty"` // p.pp == nil
+	FS     *fsSpec  `json:"fs,omitempty"`   // drive Generator.Generate + Generator.Persist on a real directory
+}
+
+// fsSpec: the files go through the real Persist (path resolution, MkdirAll + WriteFile callback).
+// A write fault is a real one: the parent directory is a regular file, or the path is a directory.
+type fsSpec struct {
+	Dir string `json:"dir"`
+	Rel bool   `json:"rel"` // relative names resolved against dir_utils' global working directory
 }
 
 type logEntry struct {
@@ -97,6 +111,8 @@ type presult struct {
 	Jobs     []jobRec   `json:"jobs"`
 	Fault    []string   `json:"fault"`
 	Mode     string     `json:"mode"`
+	WithPP   bool       `json:"withpp"`
+	FS       bool       `json:"fs"`
 	Ev       []aEvent   `json:"ev"`
 	D        []string   `json:"d"`
 	W        [][]string `json:"w"`
@@ -437,11 +453,23 @@ func runPersistCase(c pcase) presult {
 		rng: rand.New(rand.NewSource(c.Seed*7919 + int64(c.ID))), files: map[string][]string{},
 		wake: make(chan struct{}, 1), pathOf: make([]string, c.N+1)}
 	jobs := make([][2]string, c.N)
-	res := presult{ID: c.ID, N: c.N, K: c.K, Fault: c.Fault, Mode: c.Mode, Jobs: []jobRec{}}
+	res := presult{ID: c.ID, N: c.N, K: c.K, Fault: c.Fault, Mode: c.Mode, Jobs: []jobRec{}, WithPP: !c.NoPP, FS: c.FS != nil}
+	var fsx *fsRun
+	if c.FS != nil {
+		var err error
+		if fsx, err = prepareFS(c); err != nil {
+			res.Panic = "harness: " + err.Error()
+			return res
+		}
+		defer fsx.restore()
+	}
 	for j := 1; j <= c.N; j++ {
 		r.pathOf[j] = "f" + strconv.Itoa(j)
 		jobs[j-1] = [2]string{r.pathOf[j], "c" + strconv.Itoa(j)}
-		res.Jobs = append(res.Jobs, jobRec{Path: jobs[j-1][0], Content: jobs[j-1][1]})
+		if fsx != nil {
+			r.pathOf[j] = fsx.full[j]
+		}
+		res.Jobs = append(res.Jobs, jobRec{Path: r.pathOf[j], Content: jobs[j-1][1]})
 	}
 	if c.Mode == "free" {
 		r.free, r.yield = true, true
@@ -451,7 +479,16 @@ func runPersistCase(c pcase) presult {
 	done := make(chan struct{})
 	go func() {
 		defer close(done)
-		p := nd.Guard(func() { retErr = generator.VerifPersist(r, c.K, jobs, r.write, r.hook) })
+		p := nd.Guard(func() {
+			switch {
+			case fsx != nil:
+				retErr = fsx.call(r)
+			case c.NoPP:
+				retErr = generator.VerifPersist(nil, c.K, jobs, r.write, r.hook)
+			default:
+				retErr = generator.VerifPersist(r, c.K, jobs, r.write, r.hook)
+			}
+		})
 		if p != "" {
 			panicked.Store(p)
 		}
@@ -576,6 +613,14 @@ func runPersistCase(c pcase) presult {
 			res.Ev = append(res.Ev, aEvent{E: "ppBegin", Path: e.Path, Content: e.Content})
 		case "ppEnd":
 			res.Ev = append(res.Ev, aEvent{E: "ppEnd", Path: e.Path, OK: e.OK})
+			if fsx != nil && e.OK {
+				// earliest point at which the real write callback can start
+				res.Ev = append(res.Ev, aEvent{E: "wBegin", Path: e.Path, Content: fsx.onDisk(e.Path, e.G)})
+			}
+		case "writeDone":
+			if fsx != nil { // the real write callback has returned
+				res.Ev = append(res.Ev, aEvent{E: "wEnd", Path: e.Path, OK: e.G >= 1 && e.G <= c.N && c.Fault[e.G-1] != "wr"})
+			}
 		case "inwr":
 			res.Ev = append(res.Ev, aEvent{E: "wBegin", Path: e.Path, Content: e.Content})
 		case "wEnd":
@@ -598,6 +643,9 @@ func runPersistCase(c pcase) presult {
 	for _, p := range r.forder {
 		res.Files = append(res.Files, fileRec{Path: p, Contents: append([]string{}, r.files[p]...)})
 	}
+	if fsx != nil {
+		res.Files = fsx.tree()
+	}
 	res.Rel = append([]int{}, r.rel...)
 	if c.Mode == "free" || len(res.Rel) == 0 {
 		// derive a release order from the arrival order (first arrival of a goroutine needs no release)
@@ -618,6 +666,147 @@ func runPersistCase(c pcase) presult {
 	return res
 }
 
+// ---------------------------------------------------------------- real file system
+
+type fsRun struct {
+	c        pcase
+	dir      string
+	names    []string // as handed to the generator (1-based)
+	full     []string // as Persist resolves them = what the hook reports (1-based)
+	abs      []string
+	obstacle map[string]bool
+	oldProcs int
+}
+
+func prepareFS(c pcase) (*fsRun, error) {
+	f := &fsRun{c: c, dir: c.FS.Dir, names: make([]string, c.N+1), full: make([]string, c.N+1),
+		abs: make([]string, c.N+1), obstacle: map[string]bool{}}
+	if err := os.MkdirAll(f.dir, 0o755); err != nil {
+		return nil, err
+	}
+	dir_utils.SetGlobalwd("")
+	if c.FS.Rel {
+		dir_utils.SetGlobalwd(f.dir)
+	}
+	for j := 1; j <= c.N; j++ {
+		rel := fmt.Sprintf("d%d/sub/f%d.go", j, j)
+		f.abs[j] = filepath.Join(f.dir, rel)
+		if c.FS.Rel {
+			wd, err := dir_utils.Getwd()
+			if err != nil {
+				return nil, err
+			}
+			f.names[j] = rel
+			f.full[j] = filepath.Join(wd, rel)
+		} else {
+			f.names[j] = f.abs[j]
+			f.full[j] = f.abs[j]
+		}
+		if c.Fault[j-1] == "wr" {
+			if j%2 == 1 { // MkdirAll fails: a path component is a regular file
+				o := filepath.Join(f.dir, fmt.Sprintf("d%d", j))
+				if err := os.WriteFile(o, []byte("obstacle"), 0o644); err != nil {
+					return nil, err
+				}
+				f.obstacle[o] = true
+			} else { // WriteFile fails: the path is a directory
+				if err := os.MkdirAll(f.abs[j], 0o755); err != nil {
+					return nil, err
+				}
+			}
+		}
+	}
+	k := c.K
+	if k < 1 {
+		k = 1
+	}
+	f.oldProcs = runtime.GOMAXPROCS(k) // newAsyncPostProcess takes its concurrency from here
+	return f, nil
+}
+
+func (f *fsRun) restore() {
+	runtime.GOMAXPROCS(f.oldProcs)
+	generator.VerifPersistHook = nil
+	dir_utils.SetGlobalwd("")
+}
+
+type fsBackend struct {
+	r *prun
+	f *fsRun
+}
+
+func (b *fsBackend) Name() string                              { return "verif" }
+func (b *fsBackend) Lang() string                              { return "verif" }
+func (b *fsBackend) Options() []plugin.Option                  { return nil }
+func (b *fsBackend) BuiltinPlugins() []*plugin.Desc            { return nil }
+func (b *fsBackend) GetPlugin(desc *plugin.Desc) plugin.Plugin { return nil }
+func (b *fsBackend) Generate(req *plugin.Request, log backend.LogFunc) *plugin.Response {
+	res := plugin.NewResponse()
+	for j := 1; j <= b.f.c.N; j++ {
+		name := b.f.names[j]
+		res.Contents = append(res.Contents, &plugin.Generated{Name: &name, Content: "c" + strconv.Itoa(j)})
+	}
+	return res
+}
+
+type fsBackendPP struct{ fsBackend }
+
+func (b *fsBackendPP) PostProcess(path string, content []byte) ([]byte, error) {
+	return b.r.PostProcess(path, content)
+}
+
+func (f *fsRun) call(r *prun) error {
+	generator.VerifPersistHook = r.hook
+	g := &generator.Generator{}
+	var be backend.Backend = &fsBackendPP{fsBackend{r: r, f: f}}
+	if f.c.NoPP {
+		be = &fsBackend{r: r, f: f}
+	}
+	if err := g.RegisterBackend(be); err != nil {
+		return err
+	}
+	res := g.Generate(&generator.Arguments{Out: &generator.LangSpec{Language: "verif"}, Req: plugin.NewRequest(),
+		Log: backend.DummyLogFunc()})
+	return g.Persist(res)
+}
+
+// onDisk: what is stored under the job's path when all is over (the expected content if there
+// is no such file, so that the absence shows up in the file comparison, not as a content error).
+func (f *fsRun) onDisk(path string, g int) string {
+	want := "c" + strconv.Itoa(g)
+	if !f.c.NoPP {
+		want = "pp(" + want + ")"
+	}
+	if g < 1 || g > f.c.N {
+		return want
+	}
+	if st, err := os.Stat(f.abs[g]); err == nil && st.Mode().IsRegular() {
+		if b, err := os.ReadFile(f.abs[g]); err == nil {
+			return string(b)
+		}
+	}
+	return want
+}
+
+func (f *fsRun) tree() []fileRec {
+	out := []fileRec{}
+	filepath.Walk(f.dir, func(p string, info os.FileInfo, err error) error {
+		if err != nil || !info.Mode().IsRegular() || f.obstacle[p] {
+			return nil
+		}
+		name := p
+		for j := 1; j <= f.c.N; j++ {
+			if f.abs[j] == p {
+				name = f.full[j]
+			}
+		}
+		b, _ := os.ReadFile(p)
+		out = append(out, fileRec{Path: name, Contents: []string{string(b)}})
+		return nil
+	})
+	return out
+}
+
 // hangBudget stops a batch from spending minutes in watchdogs when the code under test
 // deadlocks systematically: after this many hung cases the rest is skipped (reported).
 var hangCount int64
@@ -634,6 +823,30 @@ func init() {
 				return nil, fmt.Errorf("bad n")
 			}
 			if atomic.LoadInt64(&hangCount) >= 8 {
+				return map[string]interface{}{"id": c.ID, "skipped": true}, nil
+			}
+			if c.FS != nil {
+				return nil, fmt.Errorf("fs cases need the persistfs subcommand (one at a time)")
+			}
+			res := runPersistCase(c)
+			if res.Hang {
+				atomic.AddInt64(&hangCount, 1)
+			}
+			return res, nil
+		})
+	}
+	// persistfs: process-global state is involved (GOMAXPROCS, the package-level hook variable,
+	// dir_utils' global working directory): one case at a time.
+	subcommands["persistfs"] = func(in, out string) error {
+		return nd.Each(in, out, 1, func(line []byte) (interface{}, error) {
+			var c pcase
+			if err := json.Unmarshal(line, &c); err != nil {
+				return nil, err
+			}
+			if c.FS == nil || c.FS.Dir == "" || c.N < 0 || c.N > 64 {
+				return nil, fmt.Errorf("bad fs case")
+			}
+			if atomic.LoadInt64(&hangCount) >= 4 {
 				return map[string]interface{}{"id": c.ID, "skipped": true}, nil
 			}
 			res := runPersistCase(c)
